@@ -55,6 +55,38 @@ func runVF26(p *Prog, r *RuleRun) {
 						}
 					}
 				}
+				// ... or a make([]byte, K) with a constant K, handed in whole
+				// (go/ssa turns a constant-size make into an array allocation that is sliced whole)
+				if staticLen < 0 {
+					whole := buf
+					for i := 0; i < 3; i++ {
+						sl, ok := whole.(*ssa.Slice)
+						if !ok || sl.Low != nil {
+							break
+						}
+						if hc, ok := sl.High.(*ssa.Const); ok && sl.High != nil {
+							staticLen = hc.Int64() // x[:K]
+							break
+						}
+						if sl.High != nil {
+							break
+						}
+						whole = sl.X
+					}
+					if staticLen >= 0 {
+						whole = nil
+					}
+					if ms, ok := whole.(*ssa.MakeSlice); ok {
+						if cl, ok := ms.Len.(*ssa.Const); ok {
+							staticLen = cl.Int64()
+						}
+					} else if whole == nil {
+					} else if pt, ok := whole.Type().Underlying().(*types.Pointer); ok {
+						if at, ok := pt.Elem().Underlying().(*types.Array); ok {
+							staticLen = at.Len()
+						}
+					}
+				}
 				if prm, ok := buf.(*ssa.Parameter); ok && staticLen < 0 {
 					// a helper that is handed the buffer: every caller passes a whole array of one length
 					idx := -1
